@@ -23,7 +23,7 @@ use rustc_middle::mir::{
     Rvalue, StatementKind, TerminatorKind,
 };
 use rustc_middle::ty::print::PrintTraitRefExt;
-use rustc_middle::ty::{self, Ty, TyCtxt, TypingEnv};
+use rustc_middle::ty::{self, Ty, TyCtxt, TypeVisitableExt, TypingEnv};
 use rustc_span::Span;
 use std::fmt::Write as _;
 
@@ -600,8 +600,26 @@ fn dump_body<'tcx>(tcx: TyCtxt<'tcx>, def: LocalDefId, body: &Body<'tcx>) -> Opt
         .local_decls
         .iter_enumerated()
         .map(|(l, d)| {
+            // element size of Vec<T> locals (for allocation-size obligations)
+            let mut esz = J::Null;
+            if let ty::Adt(def, args) = d.ty.kind() {
+                let name = path_of(tcx, def.did());
+                if name == "alloc::vec::Vec" || name == "alloc::collections::vec_deque::VecDeque" {
+                    if let Some(t0) = args.types().next() {
+                        if !t0.has_non_region_param() {
+                            let r = std::panic::catch_unwind(std::panic::AssertUnwindSafe(|| {
+                                tcx.layout_of(env.as_query_input(t0)).ok().map(|l| l.size.bytes())
+                            }));
+                            if let Ok(Some(sz)) = r {
+                                esz = J::I(sz as i128);
+                            }
+                        }
+                    }
+                }
+            }
             J::O(vec![
                 ("ty", s(ty_str(d.ty))),
+                ("esz", esz),
                 ("mut", if d.mutability.is_mut() { J::B(true) } else { J::Null }),
                 (
                     "n",
